@@ -79,9 +79,10 @@ func (b *Buffer) Grow(n int)
 func (b *Buffer) startRedactable()
   requires !b.markerOpen && b.validUntil == len(b.buf) && b.mode == UnsafeEscaped
   requires WF(b.buf, len(b.buf), false) && LS(b.buf, len(b.buf)) && clean(b.buf, len(b.buf))
-  ghost gl = len(b.buf) before "p, ok := b.tryGrowByReslice(len(m.StartS))"
-  ghost ga = b.buf before "p, ok := b.tryGrowByReslice(len(m.StartS))"
-  lemma [C01,C03] AppendDelim(ga, b.buf, gl, true) after "copy(b.buf[p:], m.StartS)"
+  -- the proof hint is stated over entry and exit (not over the statements that append the marker)
+  ghost gl = len(b.buf) at entry
+  ghost ga = b.buf at entry
+  lemma [C01,C03] AppendDelim(ga, b.buf, gl, true) when len(b.buf) == gl + 3 at exit
   ensures b.markerOpen && b.validUntil == old(b.validUntil) && b.mode == old(b.mode)
   ensures [C01] WF(b.buf, len(b.buf), true)
   ensures [C03] LS(b.buf, len(b.buf))
@@ -94,9 +95,9 @@ func (b *Buffer) endRedactable()
   modifies b, mem(b.buf) if cap(b.buf) > len(b.buf)
   ensures ref(b.buf) == old(ref(b.buf)) || fresh(b.buf)
   requires WF(b.buf, len(b.buf), true) && LS(b.buf, len(b.buf)) && clean(b.buf, len(b.buf))
-  ghost gl = len(b.buf) before "p, ok := b.tryGrowByReslice(m.EndLen)"
-  ghost ga = b.buf before "p, ok := b.tryGrowByReslice(m.EndLen)"
-  lemma [C01,C03] AppendDelim(ga, b.buf, gl, false) after "copy(b.buf[p:], m.EndS)"
+  ghost gl = len(b.buf) at entry
+  ghost ga = b.buf at entry
+  lemma [C01,C03] AppendDelim(ga, b.buf, gl, false) when len(b.buf) == gl + 3 at exit
   ensures !b.markerOpen && b.validUntil == old(b.validUntil) && b.mode == old(b.mode)
   ensures [C01] WF(b.buf, len(b.buf), false)
   ensures [C03] LS(b.buf, len(b.buf))
